@@ -8,8 +8,8 @@ import subprocess
 _here = os.path.dirname(os.path.abspath(__file__))
 _tracked = set(subprocess.run(["git", "-C", _here, "ls-files", "vlib"], stdout=subprocess.PIPE, text=True).stdout.split())
 for _m in sorted(glob.glob(os.path.join(_here, "vlib", "reg_C*.py"))):
-    if ("vlib/" + os.path.basename(_m)) not in _tracked and not os.environ.get("MANIFEST_ALL"):
-        continue  # only committed checks are claimed
+    if os.path.basename(_m)[4:7] not in md.CLAIMED:
+        continue  # only checks that are finished and pass on the unchanged tree are claimed
     mod = importlib.import_module("vlib." + os.path.basename(_m)[:-3])
     for pid, c in getattr(mod, "MANIFEST", {}).items():
         md.CHECKS[pid] = c
